@@ -6,6 +6,8 @@ import Driver.Engine
 
   header   model arr kind=arr intcap=N keeps=0|1 nr=0|1 nm=0|1 realloc=0|1 inplace=0|1 isz=<sizeof(Item)> z=0|1
            model arr kind=seg sqrt=0|1 L=n keeps=0|1 realloc=0|1 inplace=0|1 isz=<sizeof(Item)> z=0|1
+  creation `new o`, `newfill o n <ref>`, `newrange o ids…` (forward range / initializer list), `newinput o ids…`, `newcap o n`
+           (CreateCap), `newcrt o ids…` (CreateCrt), `cctor d s shrink`, `mctor d s`
   objects  live in slots 0..3; value arguments: `v<id>` = a value outside the container, `e<j>` = element j of
            the same container (aliasing)
   answer   `<count> <capacity>|<cells>|<memory-manager calls>`  (two-object operations: `dst ; src|calls`);
@@ -74,6 +76,10 @@ def step (st : St) (toks : List String) : St × String :=
   | ["newfill", o, n, r] => st.out1 (nat! o) (newFill cfg (nat! n) ((parseRef r).read []))
   | "newrange" :: o :: xs => st.out1 (nat! o) (newRange cfg (live xs))
   | "newinput" :: o :: xs => st.out1 (nat! o) (addAll cfg (State.init cfg) (live xs))
+  -- `Array::CreateCap(capacity)` = `Array(Data(capacity))`; `CreateCrt(count, creator)` = `CreateCap(count)` + `count` times
+  -- `AddBackNogrowCrt`: the shape of the forward-range constructor
+  | ["newcap", o, n] => st.out1 (nat! o) (newCap cfg (nat! n))
+  | "newcrt" :: o :: xs => st.out1 (nat! o) (newRange cfg (live xs))
   | ["del", o] =>
     match getSlot st.slots (nat! o) with
     | some s => ({ st with slots := setSlot st.slots (nat! o) none }, s!"|{st.showEvs (destroy cfg s).2}")
@@ -215,6 +221,13 @@ def sstep (st : SSt) (toks : List String) : SSt × String :=
   | ["newfill", o, n, r] => st.out1 (nat! o) (Seg.setCount cfg SState.init (nat! n) (.ext ((parseRef r).read [])))
   | "newinput" :: o :: xs => st.out1 (nat! o) (Seg.addAll cfg SState.init (live xs))
   | "newrange" :: o :: xs => st.out1 (nat! o) (Seg.addAll cfg SState.init (live xs))
+  -- `SegmentedArray::CreateCap(capacity)`: an empty object + `pvIncCapacity(0, capacity)` (the statement of `Reserve`);
+  -- `CreateCrt(count, creator)`: `CreateCap(count)`, then `pvIncCount` constructs the items in the reserved segments
+  | ["newcap", o, n] => st.out1 (nat! o) (reserveOp cfg SState.init (nat! n))
+  | "newcrt" :: o :: xs =>
+    let r := reserveOp cfg (SState.init : SState Nat) xs.length
+    let r2 := Seg.addAll cfg r.1 (live xs)
+    st.out1 (nat! o) (r2.1, r.2 ++ r2.2)
   | ["del", o] =>
     match getSlot st.slots (nat! o) with
     | some s => ({ st with slots := setSlot st.slots (nat! o) none }, s!"|{st.showEvs (destroyAll cfg s).2}")
